@@ -13,7 +13,9 @@ RULE = ('exhaustive: centre atom in {B C N O F Si P S Cl Br I As Se} x charge -2
         'all atoms of corpus, special and decorated molecules in Kekule and aromatic form; oracle: (a) literal interpreter '
         'of _common_valences/_valences_exceptions (first matching rule, environment containment), (b) RDKit sanitised total '
         'H count where both toolkits define a state, plus: every environment RDKit accepts in a corpus molecule must have a '
-        'state, (c) formula / charge / radical / mass recomputed from atoms and compared with RDKit; non-trivial = environment '
+        'state, (c) formula / charge / radical / mass recomputed from atoms and compared with RDKit, again after one label (charge / radical / '
+        'isotope) was edited inside `with mol:` on an object whose totals had been read, (d) every listed (non-radical) state of 18 '
+        'elements written as bracket atom with its hydrogen count must be read back with exactly that count; non-trivial = environment '
         'with charge, radical, multiple bond or hetero neighbour, distinct by environment key')
 ASSUMPTIONS = ['CachedMethods compatibility shim', 'RDKit (sanitisation without its cleanup step) as independent valence model; '
                'where RDKit invents states for exotic ions that chython leaves undefined no verdict is taken',
@@ -21,13 +23,14 @@ ASSUMPTIONS = ['CachedMethods compatibility shim', 'RDKit (sanitisation without 
 CENTRES = ['B', 'C', 'N', 'O', 'F', 'Si', 'P', 'S', 'Cl', 'Br', 'I', 'As', 'Se']
 NEIGH = [(1, 'C'), (2, 'C'), (3, 'C'), (1, 'N'), (2, 'N'), (3, 'N'), (1, 'O'), (2, 'O'), (1, 'S'), (2, 'S'), (1, 'F'), (1, 'Cl')]
 CONFIG = {
-    'quick': {'shards': 16, 'budget_s': 150, 'maxbonds': 3, 'n_corpus': 1000, 'exhaustive_subspaces': [
+    'quick': {'shards': 16, 'budget_s': 150, 'maxbonds': 3, 'n_corpus': 4200, 'exhaustive_subspaces': [
         '13 centre elements x charge -2..+2 x radical x multisets of <= 3 bonds over 12 (order, neighbour) types'],
         'floors': {'evaluations': 60000, 'distinct_nontrivial': 20000, 'env.exhaustive': 50000, 'oracle.table-interpreter': 60000,
                    'oracle.rdkit-both-defined': 8000, 'totals.compared': 700, 'aromatic-atoms.compared': 3000,
                    'totals.after-label-edit': 400, 'bracket-states.listed': 1200}},
-    'thorough': {'shards': 16, 'budget_s': 1800, 'maxbonds': 4, 'n_corpus': 4200, 'exhaustive_subspaces': [
-        '13 centre elements x charge -2..+2 x radical x multisets of <= 4 bonds over 12 (order, neighbour) types'],
+    'thorough': {'shards': 16, 'budget_s': 1800, 'maxbonds': 4, 'n_corpus': 4200, 'all_elements': True, 'exhaustive_subspaces': [
+        '13 centre elements x charge -2..+2 x radical x multisets of <= 4 bonds over 12 (order, neighbour) types',
+        'the other 104 elements x charge -2..+2 x radical x multisets of <= 3 bonds'],
         'floors': {'evaluations': 300000, 'distinct_nontrivial': 100000, 'env.exhaustive': 230000,
                    'oracle.table-interpreter': 300000, 'oracle.rdkit-both-defined': 30000, 'totals.compared': 3000,
                    'aromatic-atoms.compared': 15000, 'totals.after-label-edit': 1500, 'bracket-states.listed': 1200}},
@@ -383,8 +386,13 @@ def worker(ctx):
     RDLogger.DisableLog('rdApp.*')
     bracket_states(ctx)
     idx = 0
-    for csym in CENTRES:
-        for k in range(0, cfg['maxbonds'] + 1):
+    centres = [(c, cfg['maxbonds']) for c in CENTRES]
+    if cfg.get('all_elements'):
+        # thorough: every other element as centre as well (up to 3 bonds); RDKit is consulted only where both define a state
+        centres += [(c.__name__, 3) for c in sorted(Element.__subclasses__(), key=lambda c: c.atomic_number.fget(None))
+                    if c.__name__ not in CENTRES and c.__name__ != 'H']
+    for csym, maxb in centres:
+        for k in range(0, maxb + 1):
             for env in itertools.combinations_with_replacement(NEIGH, k):
                 for charge in (-2, -1, 0, 1, 2):
                     for radical in (False, True):
